@@ -72,24 +72,14 @@ class TLCResult:
             self.error = m.group(1) if m else "tlc exit %d" % rc
         self.finished = "Model checking completed" in out or "Finished computing initial states" in out and rc == 0
 
-    def printed(self, tag):
-        """values printed by PrintT(<<tag, "json string">>) -> list of decoded JSON values"""
-        res = []
-        pat = re.compile(r'^<<"%s", (".*")>>$' % re.escape(tag))
-        for line in self.out.splitlines():
-            m = pat.match(line.strip())
-            if m:
-                res.append(json.loads(tla_unquote(m.group(1))))
-        return res
-
     def printed_raw(self, tag):
-        res = []
-        pat = re.compile(r'^<<"%s", (.*)>>$' % re.escape(tag))
-        for line in self.out.splitlines():
-            m = pat.match(line.strip())
-            if m:
-                res.append(m.group(1))
-        return res
+        """string literals printed by PrintT(<<tag, "...">>) (TLC may wrap the tuple over several lines)"""
+        pat = re.compile(r'<<\s*"%s",\s*("(?:[^"\\]|\\.)*")\s*>>' % re.escape(tag), re.S)
+        return [m.group(1) for m in pat.finditer(self.out)]
+
+    def printed(self, tag):
+        """values printed by PrintT(<<tag, ToJson(v)>>) -> list of decoded JSON values"""
+        return [json.loads(tla_unquote(x)) for x in self.printed_raw(tag)]
 
 
 def tla_unquote(s):
